@@ -12,6 +12,7 @@ import (
 // every chunking. The position itself is supplied by the independent recogniser (refjson);
 // the simulated dimension is the reader's delivery schedule.
 func propC09(cx *sim.Ctx) {
+	sim.Declare([]string{"error_after_newline", "error_in_later_read", "error_beyond_first_4096", "front_end_accepts_rejected_input", "input_not_rejected_by_reference"}, []string{})
 	c := drawStreamCase(cx.T, true)
 	cx.Render(c.render)
 	cx.Key(c.Input)
